@@ -19,6 +19,16 @@
         same rest ([*_complete]);
     (c) hence the real productions accept every rendering ([parser_accepts_rendered_*]).
     (d) the element / content rung at the grammar level: [render_node_is_content].
+    (e) round 2 -- ACCEPTANCE OF EVERY WELL-FORMED DOCUMENT WITHOUT A DOCUMENT TYPE DECLARATION
+        ([wellformed_nodoctype_is_accepted_partial]): for EVERY string s (not only renderings) with
+        wf s = true whose parse by the specification has no DOCTYPE, the model of from_raw accepts s
+        completely (empty rest).  Hence acceptance of a rendering follows from [render_wf] alone on
+        this class.  Its grammar half ([spec_grammar_is_accepted_nodoctype_partial]): what
+        [Spec.XmlWF.parse_document] reads -- XML declaration, Misc, element, attributes, content to any
+        depth -- the production `document` of the REGENERATED grammar reads, with the typed document
+        that translates back to the specification's tree, provided names are QNames and end tags match
+        (both follow from wf).  Proofs/XmlWFSyntaxConv*.v; with C02 (4) the two languages coincide on
+        this class outside findings D04 and WFNS20-23 (Properties/C02.v (8)).
     Not proved: the well-formedness CONSTRAINTS and namespace constraints on the tree that is read back
     (element type match holds by construction of the rendering; attribute uniqueness and the namespace
     checks need the permutation lemmas), the prolog / XML declaration / DTD rung of [render_wf], and
@@ -29,6 +39,8 @@
 From Coq Require Import List NArith Bool.
 From XmlRs Require Import Base.CPred Spec.XmlChars Spec.XmlWF Spec.Infoset Model.Peg Gen.GrammarXmlGen
   Proofs.NameLanguage Proofs.XmlWFLexical Proofs.XmlWFRender.
+From XmlRs Require Model.ParseActions Model.Info Proofs.ParseInvElem Proofs.XmlWFSyntaxDoc Proofs.XmlWFSyntaxCheck
+  Proofs.XmlWFSyntaxConvElem Proofs.XmlWFSyntaxConvDoc Proofs.XmlWFSyntaxConvCheck.
 Import ListNotations.
 
 (** every oracle is an admissible choice of surface forms *)
@@ -99,6 +111,20 @@ Theorem parser_accepts_rendered_pi : forall c p t d rest, pi_ok t d = true ->
   rest_of (run G_xml R nt_pi (render_pi c p t d ++ rest)) = Some rest.
 Proof. intros c p t d rest H. apply pi_complete, render_pi_wf, H. Qed.
 
+(** ** (e) every well-formed document without DOCTYPE is accepted *)
+Theorem spec_grammar_is_accepted_nodoctype_partial : forall s xd,
+  parse_document s = Some xd -> x_doctype xd = None -> XmlWFSyntaxConvElem.xok (x_root xd) = true ->
+  exists pd, ParseActions.parse_document s = ParseActions.POk (pd, []) /\ XmlWFSyntaxDoc.x_doc_nodt pd = xd
+    /\ ParseActions.pr_declaration_doc (ParseActions.d_prolog pd) = None
+    /\ XmlWFSyntaxDoc.d04_doc_nodt pd = true /\ ParseInvElem.p_element_ok (ParseActions.d_element pd).
+Proof. exact XmlWFSyntaxConvDoc.conv_document_nodoctype. Qed.
+
+Theorem wellformed_nodoctype_is_accepted_partial : forall s,
+  wf s = true -> XmlWFSyntaxConvCheck.spec_nodoctype s = true ->
+  exists d, Info.from_raw s = Info.OOk ([], d) /\ XmlWFSyntaxCheck.nodoctype s = true
+            /\ XmlWFSyntaxCheck.KnownD04_nodoctype s = false.
+Proof. exact XmlWFSyntaxConvCheck.wf_nodoctype_accepted. Qed.
+
 Example rendered_nontrivial :
   comment_ok [32;97;45;98;32]%N = true /\ pi_ok [112;105]%N (Some [120;63;32;62]%N) = true.
 Proof. split; vm_compute; reflexivity. Qed.
@@ -113,3 +139,5 @@ Print Assumptions text_is_character_data.
 Print Assumptions render_node_is_content.
 Print Assumptions parser_accepts_rendered_comment.
 Print Assumptions parser_accepts_rendered_pi.
+Print Assumptions spec_grammar_is_accepted_nodoctype_partial.
+Print Assumptions wellformed_nodoctype_is_accepted_partial.
